@@ -86,6 +86,31 @@ def impl_case(case):
 
     for o in case["ops"]:
         o = tuple(o)
+        if o[0] == "restart_during":
+            # an op handled while stop() is under way (at the moment stop() disconnects the transport): the monitors
+            # see the inner op, then the restart - with the restart's before-hooks run right after the inner op
+            rs = ("restart",)
+            seen = []
+
+            def nested(inner, seen=seen):
+                run_op(inner)
+                trk.before(rs)
+                for m in mons:
+                    guarded(m, "before", im, rs, trk)
+                seen.append(len(im.log))
+            im.nested = nested
+            start = len(im.log)
+            outs.append(im.op(o))
+            im.nested = None
+            if not seen:
+                trk.before(rs)
+                for m in mons:
+                    guarded(m, "before", im, rs, trk)
+            events = im.log[seen[0] if seen else start:]
+            for m in mons:
+                guarded(m, "after", im, rs, events, trk)
+            trk.after(rs)
+            continue
         if o[0] == "save_fail_during":
             # a periodic save attempt that fails in the serialiser because the inner op arrives: the monitors
             # (and the model) see the inner op alone
@@ -211,6 +236,8 @@ def model_lines(case):
             lines += ["save", gwrun.op_line(tuple(o[1]))]
         elif o[0] == "save_fail_during":   # the failed save has no effect: the inner op alone
             lines.append(gwrun.op_line(tuple(o[1])))
+        elif o[0] == "restart_during":     # handled before stop() disconnects: the inner op, then the restart
+            lines += [gwrun.op_line(tuple(o[1])), "restart"]
         else:
             lines.append(gwrun.op_line(o))
     return lines
@@ -218,7 +245,7 @@ def model_lines(case):
 
 def pick_outputs(case, lines, outs):
     """Model output lines aligned with case['ops'] (for save_during: the output of the inner op)."""
-    width = [2 if tuple(o)[0] == "save_during" else 1 for o in case["ops"]]
+    width = [2 if tuple(o)[0] in ("save_during", "restart_during") else 1 for o in case["ops"]]
     body = outs[len(lines) - sum(width):]
     res, k = [], 0
     for w in width:
